@@ -22,6 +22,8 @@ mod branch_updater;
 mod extend_range_protocol;
 mod leaf_stage;
 mod leaf_updater;
+#[cfg(nomt_verif)]
+pub use leaf_updater::verif as leaf_updater_verif;
 
 #[cfg(test)]
 mod tests;
